@@ -30,6 +30,7 @@ use tempfile::{self, TempDir};
 
 use super::error::{RedoError, RedoErrorKind};
 use super::helpers::{self, RedoPath, RedoPathBuf};
+use super::state;
 
 const ENV_BASE: &str = "REDO_BASE";
 pub const ENV_COLOR: &str = "REDO_COLOR";
@@ -144,9 +145,17 @@ impl Env {
             let mut dirs: Vec<PathBuf> = Vec::with_capacity(targets.len());
             for t in targets.iter() {
                 match t.as_path().parent() {
-                    // Cleaned, like abspath: "sub/.." is the directory above, not "sub".
-                    Some(par) => dirs
-                        .push(helpers::normpath(&helpers::abs_path(&cwd, &par)).into_owned()),
+                    // The physical directory of the target (symbolic links and
+                    // ".." resolved, also when it does not exist yet): "sub/.."
+                    // is the directory above "sub", and "ld/.." the directory
+                    // above what ld points to.
+                    Some(_) => {
+                        let abs_t = helpers::abs_path(&cwd, t.as_path());
+                        let real_t = state::realdirpath(abs_t.as_ref())
+                            .map(Cow::into_owned)
+                            .unwrap_or_else(|_| helpers::normpath(&abs_t).into_owned());
+                        dirs.push(real_t.parent().unwrap_or(Path::new("/")).to_path_buf())
+                    }
                     None => {
                         return Err(
                             RedoErrorKind::InvalidTarget(t.as_os_str().to_os_string()).into()
